@@ -96,11 +96,16 @@ def probe_source(repo=None):
     names = re.findall(r'^\s*([A-Za-z_][A-Za-z_0-9]*)\s*,', cats, re.M)
     classes = [n for n in names if re.search(r'\bstruct\s+' + n + r'\s*:', iface)]
     lines = ['#include <ipr/impl>', '#include <ipr/io>', '#include <ipr/traversal>', 'namespace ipr {']
+    # (instantiated by use, on named objects, not by explicit instantiation: whatever parameter passing the operators declare, a
+    #  call on two variables selects them, and the rule sees the signature as it is)
     for T in ('Specifiers', 'Qualifiers'):
+        lines.append(f'   inline bool probe_set_algebra_{T}({T} a, {T} b)')
+        lines.append('   {')
         for op in ('|', '&', '^'):
-            lines.append(f'   template {T} operator{op}({T}, {T});')
-            lines.append(f'   template {T}& operator{op}=({T}&, {T});')
-        lines.append(f'   template bool implies({T}, {T});')
+            lines.append(f'      {T} r{"oax"["|&^".index(op)]} = a {op} b;')
+            lines.append(f'      {T} c{"oax"["|&^".index(op)]} = a; c{"oax"["|&^".index(op)]} {op}= b;')
+        lines.append('      return implies(a, b) and ro == co and ra == ca and rx == cx;')
+        lines.append('   }')
     lines.append('   namespace util {')
     for c in classes:
         lines.append(f'      template const ipr::{c}* view<ipr::{c}>(const ipr::Node&);')
